@@ -7,7 +7,8 @@
    the per-operand dtype oracle on every generated case (stated in DESIGN). *)
 From VF Require Import Base.Prelude Gen.Enums Gen.Configs Gen.Policy Gen.Registry Gen.Checks
      Gen.MatDesc Gen.InstChecks Gen.Scopes Model.Recipe Model.Check Model.Graph
-     Model.Plan Model.Perform Spec.WF Proofs.ListFacts Proofs.PerformStep Proofs.ModeProofs.
+     Model.Plan Model.Perform Spec.WF Proofs.ListFacts Proofs.PerformStep Proofs.ModeProofs
+     Proofs.UntouchedProofs.
 
 (* (a) mode -> per-operand transformation, for EVERY config in one of the
    three modes (static-range: integer compute with an activation config;
@@ -159,6 +160,21 @@ Definition ex_static : ocfg :=
           Prec_INTEGER false false.
 Definition ex_wo : ocfg :=
   Mk_ocfg None (Some (Mk_tcfg 4 true Gr_CHANNELWISE Dt_INT 0)) Prec_FLOAT true false.
+(* "others untouched", over WHOLE performer runs: an original tensor that no
+   instruction of its subgraph names comes back with the same name, shape,
+   dtype, buffer and annotation (instructions re-targeted by the performer
+   name new tensors only).  Hypotheses (ids >= 0) are evaluated in Coq on
+   every generated instruction list. *)
+Theorem C03_tensor_without_instruction_is_returned_unchanged :
+  forall m tis m' k g t,
+    nth_opt (m_subgraphs m) k = Some g -> 0 <= t < ntens g ->
+    Forall (fun ti => 0 <= ti_sg ti /\ Forall (fun i => 0 <= i_tensor i) (ti_insts ti)) tis ->
+    (forall ti i, In ti tis -> ti_sg ti = Z.of_nat k -> In i (ti_insts ti) -> i_tensor i <> t) ->
+    transform_graph m tis = Ok m' ->
+    exists g', nth_opt (m_subgraphs m') k = Some g' /\ tensor_at g' t = tensor_at g t.
+Proof. exact transform_graph_untouched. Qed.
+Print Assumptions C03_tensor_without_instruction_is_returned_unchanged.
+
 Example C03_nonvacuous :
   In ex_static policy_all_configs /\ In ex_wo policy_all_configs /\
   expected_trans ex_static true false = [Tr_ADD_QUANTIZE] /\
